@@ -389,14 +389,45 @@ pub fn generate(seed: u64, tier: Tier) -> Case {
                             1 => Ty::Item(t).cptr(),
                             _ => Ty::Item(t).mptr().arr(2),
                         };
+                        // Sometimes what it uses is the vftable type generated for a type
+                        // of the closure (by value, in an array, behind a pointer).
+                        let owners: Vec<usize> = targets
+                            .iter()
+                            .copied()
+                            .filter(|t| matches!(&p.items[*t].kind, ItemKind::Type { vftable: Some(_), .. }))
+                            .collect();
+                        let ty = if !owners.is_empty() && rng.chance(1, 3) {
+                            let o = *rng.pick(&owners);
+                            let om = p.items[o].module;
+                            let vname = format!("{}Vftable", p.items[o].name);
+                            let line = if rng.chance(1, 2) {
+                                format!("use {}::{};", p.modules[om].item_path(), vname)
+                            } else {
+                                format!("use {};", p.modules[om].item_path())
+                            };
+                            if !p.modules[k].extra_uses.contains(&line) {
+                                p.modules[k].extra_uses.push(line);
+                            }
+                            match rng.below(3) {
+                                0 => Ty::Name(vname),
+                                1 => Ty::Name(vname).arr(rng.range(1, 3)),
+                                _ => Ty::Name(vname).cptr(),
+                            }
+                        } else {
+                            ty
+                        };
                         let mut it = simple_type(format!("C{k}_{j}"), k, 0, false, ptr);
                         if let ItemKind::Type {
                             fields,
                             align,
                             impl_funcs,
+                            flags,
                             ..
                         } = &mut it.kind
                         {
+                            // What the client says about itself must not rub off on what it uses.
+                            flags.copyable = rng.chance(1, 3);
+                            flags.cloneable = rng.chance(1, 3);
                             // A single region: the default alignment is that region's.
                             *fields = vec![field("uses", ty.clone())];
                             *align = None;
